@@ -15270,7 +15270,8 @@ func (t *TunnelEncapSubTLVUnknown) MarshalJSON() ([]byte, error) {
 func NewTunnelEncapSubTLVUnknown(typ EncapSubTLVType, value []byte) *TunnelEncapSubTLVUnknown {
 	return &TunnelEncapSubTLVUnknown{
 		TunnelEncapSubTLV: TunnelEncapSubTLV{
-			Type: typ,
+			Type:   typ,
+			Length: uint16(len(value)),
 		},
 		Value: value,
 	}
@@ -15321,7 +15322,8 @@ func (t *TunnelEncapSubTLVEncapsulation) MarshalJSON() ([]byte, error) {
 func NewTunnelEncapSubTLVEncapsulation(key uint32, cookie []byte) *TunnelEncapSubTLVEncapsulation {
 	return &TunnelEncapSubTLVEncapsulation{
 		TunnelEncapSubTLV: TunnelEncapSubTLV{
-			Type: ENCAP_SUBTLV_TYPE_ENCAPSULATION,
+			Type:   ENCAP_SUBTLV_TYPE_ENCAPSULATION,
+			Length: uint16(4 + len(cookie)),
 		},
 		Key:    key,
 		Cookie: cookie,
@@ -15368,7 +15370,8 @@ func (t *TunnelEncapSubTLVProtocol) MarshalJSON() ([]byte, error) {
 func NewTunnelEncapSubTLVProtocol(protocol uint16) *TunnelEncapSubTLVProtocol {
 	return &TunnelEncapSubTLVProtocol{
 		TunnelEncapSubTLV: TunnelEncapSubTLV{
-			Type: ENCAP_SUBTLV_TYPE_PROTOCOL,
+			Type:   ENCAP_SUBTLV_TYPE_PROTOCOL,
+			Length: 2,
 		},
 		Protocol: protocol,
 	}
@@ -15416,7 +15419,8 @@ func (t *TunnelEncapSubTLVColor) MarshalJSON() ([]byte, error) {
 func NewTunnelEncapSubTLVColor(color uint32) *TunnelEncapSubTLVColor {
 	return &TunnelEncapSubTLVColor{
 		TunnelEncapSubTLV: TunnelEncapSubTLV{
-			Type: ENCAP_SUBTLV_TYPE_COLOR,
+			Type:   ENCAP_SUBTLV_TYPE_COLOR,
+			Length: 8,
 		},
 		Color: color,
 	}
@@ -15519,7 +15523,8 @@ func NewTunnelEncapSubTLVEgressEndpoint(address netip.Addr) (*TunnelEncapSubTLVE
 	}
 	return &TunnelEncapSubTLVEgressEndpoint{
 		TunnelEncapSubTLV: TunnelEncapSubTLV{
-			Type: ENCAP_SUBTLV_TYPE_EGRESS_ENDPOINT,
+			Type:   ENCAP_SUBTLV_TYPE_EGRESS_ENDPOINT,
+			Length: uint16(EGRESS_ENDPOINT_ADDRESS_POS + address.BitLen()/8),
 		},
 		Address: address,
 	}, nil
@@ -15565,7 +15570,8 @@ func (t *TunnelEncapSubTLVUDPDestPort) MarshalJSON() ([]byte, error) {
 func NewTunnelEncapSubTLVUDPDestPort(port uint16) *TunnelEncapSubTLVUDPDestPort {
 	return &TunnelEncapSubTLVUDPDestPort{
 		TunnelEncapSubTLV: TunnelEncapSubTLV{
-			Type: ENCAP_SUBTLV_TYPE_UDP_DEST_PORT,
+			Type:   ENCAP_SUBTLV_TYPE_UDP_DEST_PORT,
+			Length: 2,
 		},
 		UDPDestPort: port,
 	}
